@@ -261,7 +261,7 @@ void strip_leading_whitespace(token * chain, const char * source);
 
 void trim_trailing_whitespace_d_string(DString * d);
 
-bool table_has_caption(token * table);
+bool table_has_caption(token * table, const char * source);
 
 char * get_fence_language_specifier(token * fence, const char * source);
 
